@@ -74,7 +74,14 @@ Cases ==
                             out |-> OutBytes(InVals(s, m), [c |-> TRUE, r |-> FALSE, j |-> FALSE, S |-> FALSE, ind |-> "def", raw0 |-> FALSE], 1).b, status |-> 0] :
                              s \in Streams, m \in InModes, f \in BOOLEAN}
 
-Init == cs \in Cases /\ done = FALSE
+JV == {<< Null >>, << IntV(-7), FltV(3, 2) >>, << StrV(<< 34, 92, 10, 228, 31 >>) >>, << ArrV(<<>>) >>, << ObjV(<<>>) >>,
+       << ArrV(<< IntV(1), ArrV(<< ArrV(<<>>), ObjV(<<>>) >>), StrV(<< 97 >>) >>) >>,
+       << ObjV(<< << StrV(<< 98 >>), ArrV(<< IntV(1), ObjV(<< << StrV(<< 122 >>), Null >>, << StrV(<< 97 >>), True >> >>) >>) >>, << StrV(<< 97 >>), ObjV(<<>>) >> >>) >>,
+       << DecV(<< 49, 46, 49, 48 >>), BigV(FALSE, << 1,8,4,4,6,7,4,4,0,7,3,7,0,9,5,5,1,6,1,6 >>) >>}
+JsonCases == {[args |-> OutArgs(o) \o << "." >>, stdin |-> Joined(vals, 1), viafile |-> FALSE, out |-> OutBytes(vals, o, 1).b, status |-> 0,
+               back |-> OutBytes(vals, [c |-> TRUE, r |-> FALSE, j |-> FALSE, S |-> FALSE, ind |-> "def", raw0 |-> FALSE], 1).b] :
+                o \in {oo \in OutOpts : ~oo.r /\ ~oo.j /\ ~oo.raw0 /\ ~oo.S}, vals \in JV}
+Init == cs \in (IF Suite = "json" THEN JsonCases ELSE Cases) /\ done = FALSE
 Emit == ~done /\ done' = TRUE /\ UNCHANGED cs /\ PrintT(<< "VEC", ToJson(cs) >>)
 Spec == Init /\ [][Emit]_<< cs, done >>
 
